@@ -374,6 +374,11 @@ func (osObj *VirtualOS) findMount(path string) (*Mount, string, bool) {
 			return v, "/", true
 		}
 		if strings.HasPrefix(path, k) {
+			// The mount point must end at a path component boundary: "/tmp"
+			// is a prefix of "/tmp/x" but not of "/tmpfoo/x".
+			if !strings.HasSuffix(k, "/") && path[len(k)] != '/' {
+				continue
+			}
 			// Prefix match. Keep looking to confirm this is the longest match.
 			if match == nil || len(k) > len(match.Target) {
 				match = v
